@@ -18,21 +18,38 @@
 (*                files do not match the pattern and stay -- a writer in   *)
 (*                progress is not disturbed)                               *)
 (*                                                                         *)
+(* The NAME of a temporary file matters: tempfile.NamedTemporaryFile opens  *)
+(* with O_EXCL under a fresh random name, so a temporary file belongs to    *)
+(* exactly one writer (`tname`, `left` = names of the files dead writers    *)
+(* left behind; CreateTemp picks a name nothing in the directory has).      *)
+(* UniqueTemp = FALSE is the protocol with ONE fixed temporary name per     *)
+(* entry, opened with "wb": all writers of the key share (and truncate)     *)
+(* one file -- TLC refutes C27_TempNamesPrivate, C27_ClosedTempIsWhole and  *)
+(* C27_FinalNeverPartial for it (coarse negative control: it shows what the *)
+(* private name buys; it is not a model of everything that then goes wrong).*)
+(*                                                                         *)
 (* UseTemp = FALSE is the naive protocol (open the final file for writing) *)
 (* and exists so that TLC shows what the temp file + replace buys: it      *)
 (* refutes C27_FinalNeverPartial at once.                                  *)
 (***************************************************************************)
 EXTENDS Naturals, FiniteSets, TLC
 
-CONSTANTS Procs, Tags, UseTemp, MaxJunk, None
+CONSTANTS Procs, Tags, UseTemp, MaxJunk, None,
+          TempIds,     \* names available for temporary files
+          UniqueTemp   \* TRUE: a fresh private name per writer (mkstemp); FALSE: one fixed name
 
 VARIABLES final,   \* None or [tag, len]: the entry under the final name
           temp,    \* process -> its open temporary file (None or [tag, len])
           pc,      \* process -> "idle" | "open" | "closed" | "direct"
-          junk,    \* number of left-over temporary files
+          tname,   \* process -> the name of its temporary file (None when it has none)
+          left,    \* names of the temporary files dead writers left behind
           seen     \* what the last reader got
 
-vars == <<final, temp, pc, junk, seen>>
+vars == <<final, temp, pc, tname, left, seen>>
+
+junk == Cardinality(left)      \* number of left-over temporary files
+FixedId == CHOOSE i \in TempIds : TRUE
+Sharers(p) == {q \in Procs : tname[q] # None /\ tname[q] = tname[p]}
 
 File == [tag : Tags, len : 0..6]
 
@@ -40,79 +57,93 @@ Init ==
     /\ final = None
     /\ temp = [p \in Procs |-> None]
     /\ pc = [p \in Procs |-> "idle"]
-    /\ junk = 0
+    /\ tname = [p \in Procs |-> None]
+    /\ left = {}
     /\ seen = None
 
-CreateTemp(p, tag) ==
+CreateTemp(p, tag, id) ==
     /\ UseTemp /\ pc[p] = "idle"
-    /\ temp' = [temp EXCEPT ![p] = [tag |-> tag, len |-> 0]]
+    /\ IF UniqueTemp
+         THEN \* O_EXCL + fresh name: nothing in the directory is called `id`
+              /\ id \notin left /\ \A q \in Procs : tname[q] # id
+              /\ temp' = [temp EXCEPT ![p] = [tag |-> tag, len |-> 0]]
+              /\ left' = left
+         ELSE \* open(<final>.tmp, "wb"): whoever has that file open sees it truncated
+              /\ id = FixedId
+              /\ temp' = [q \in Procs |-> IF q = p \/ tname[q] = id THEN [tag |-> tag, len |-> 0] ELSE temp[q]]
+              /\ left' = left \ {id}
+    /\ tname' = [tname EXCEPT ![p] = id]
     /\ pc' = [pc EXCEPT ![p] = "open"]
-    /\ UNCHANGED <<final, junk, seen>>
+    /\ UNCHANGED <<final, seen>>
 
 DirectOpen(p, tag) ==          \* open(final, "wb") truncates what was there
     /\ ~UseTemp /\ pc[p] = "idle" /\ \A q \in Procs : pc[q] # "direct"
     /\ final' = [tag |-> tag, len |-> 0]
     /\ pc' = [pc EXCEPT ![p] = "direct"]
-    /\ UNCHANGED <<temp, junk, seen>>
+    /\ UNCHANGED <<temp, tname, left, seen>>
 
 Write(p) ==
     /\ pc[p] = "open" /\ temp[p].len < 6
-    /\ temp' = [temp EXCEPT ![p] = [@ EXCEPT !.len = @ + 1]]
-    /\ UNCHANGED <<final, pc, junk, seen>>
+    /\ temp' = [q \in Procs |-> IF q \in Sharers(p) THEN [temp[p] EXCEPT !.len = @ + 1] ELSE temp[q]]
+    /\ UNCHANGED <<final, pc, tname, left, seen>>
 
 DirectWrite(p) ==
     /\ pc[p] = "direct" /\ final # None /\ final.len < 6
     /\ final' = [final EXCEPT !.len = @ + 1]
-    /\ UNCHANGED <<temp, pc, junk, seen>>
+    /\ UNCHANGED <<temp, pc, tname, left, seen>>
 
 WriteFails(p) ==               \* except BaseException: remove_silent(); raise
     /\ pc[p] = "open"
     /\ temp' = [temp EXCEPT ![p] = None]
+    /\ tname' = [tname EXCEPT ![p] = None]
     /\ pc' = [pc EXCEPT ![p] = "idle"]
-    /\ UNCHANGED <<final, junk, seen>>
+    /\ UNCHANGED <<final, left, seen>>
 
 CloseTemp(p) ==
     /\ pc[p] = "open" /\ temp[p].len = 6
     /\ pc' = [pc EXCEPT ![p] = "closed"]
-    /\ UNCHANGED <<final, temp, junk, seen>>
+    /\ UNCHANGED <<final, temp, tname, left, seen>>
 
 DirectClose(p) ==
     /\ pc[p] = "direct" /\ (final = None \/ final.len = 6)
     /\ pc' = [pc EXCEPT ![p] = "idle"]
-    /\ UNCHANGED <<final, temp, junk, seen>>
+    /\ UNCHANGED <<final, temp, tname, left, seen>>
 
 Replace(p) ==
     /\ pc[p] = "closed"
     /\ final' = temp[p]
     /\ temp' = [temp EXCEPT ![p] = None]
+    /\ tname' = [tname EXCEPT ![p] = None]
     /\ pc' = [pc EXCEPT ![p] = "idle"]
-    /\ UNCHANGED <<junk, seen>>
+    /\ UNCHANGED <<left, seen>>
 
 ReplaceFails(p) ==             \* except OSError: remove_silent()
     /\ pc[p] = "closed"
     /\ temp' = [temp EXCEPT ![p] = None]
+    /\ tname' = [tname EXCEPT ![p] = None]
     /\ pc' = [pc EXCEPT ![p] = "idle"]
-    /\ UNCHANGED <<final, junk, seen>>
+    /\ UNCHANGED <<final, left, seen>>
 
 Crash(p) ==
     /\ pc[p] # "idle"
     /\ pc' = [pc EXCEPT ![p] = "idle"]
     /\ temp' = [temp EXCEPT ![p] = None]
-    /\ junk' = IF temp[p] # None THEN junk + 1 ELSE junk
+    /\ tname' = [tname EXCEPT ![p] = None]
+    /\ left' = IF temp[p] # None THEN left \cup {tname[p]} ELSE left
     /\ UNCHANGED <<final, seen>>
 
 Read(p) ==
     /\ pc[p] = "idle"
     /\ seen' = final
-    /\ UNCHANGED <<final, temp, pc, junk>>
+    /\ UNCHANGED <<final, temp, pc, tname, left>>
 
 ClearAll ==
     /\ final # None
     /\ final' = None
-    /\ UNCHANGED <<temp, pc, junk, seen>>
+    /\ UNCHANGED <<temp, pc, tname, left, seen>>
 
 Next ==
-    \/ \E p \in Procs, tag \in Tags : CreateTemp(p, tag) \/ DirectOpen(p, tag)
+    \/ \E p \in Procs, tag \in Tags : (\E id \in TempIds : CreateTemp(p, tag, id)) \/ DirectOpen(p, tag)
     \/ \E p \in Procs : Write(p) \/ WriteFails(p) \/ CloseTemp(p) \/ Replace(p) \/ ReplaceFails(p)
                            \/ DirectWrite(p) \/ DirectClose(p) \/ Crash(p) \/ Read(p)
     \/ ClearAll
@@ -120,12 +151,26 @@ Next ==
 Spec == Init /\ [][Next]_vars
 
 JunkBound == junk <= MaxJunk
+TempSymmetry == Permutations(TempIds)    \* names of temporary files are interchangeable
 
 TypeOK ==
     /\ final \in File \cup {None}
     /\ temp \in [Procs -> File \cup {None}]
     /\ pc \in [Procs -> {"idle", "open", "closed", "direct"}]
     /\ \A p \in Procs : (pc[p] \in {"open", "closed"}) <=> (temp[p] # None)
+    /\ tname \in [Procs -> TempIds \cup {None}]
+    /\ \A p \in Procs : (tname[p] # None) <=> (temp[p] # None)
+    /\ left \subseteq TempIds
+
+\* a temporary file belongs to exactly one writer: no two writers in progress use the same name,
+\* and no writer uses the name of a file that a dead writer left behind
+C27_TempNamesPrivate ==
+    /\ \A p, q \in Procs : (p # q /\ tname[p] # None) => tname[p] # tname[q]
+    /\ \A p \in Procs : tname[p] \notin left
+
+\* the entry under the final name is what ONE writer wrote (never a mix of two writers' bytes):
+\* File has a single tag, so this is TypeOK of `final`; the trace validation compares the tag of
+\* the checksum AND of the code of the real entry with it
 
 \* whatever was interrupted, the entry under the final name is complete
 C27_FinalNeverPartial == final # None => final.len = 6
